@@ -3,6 +3,7 @@ import Proofs.Syndrome
 import Proofs.Hamming
 import Theorems.C03
 import Theorems.C01
+import Proofs.BM
 /-!
 # C02 — hard-decision decoders correct every error pattern within advertised capability
 
@@ -101,7 +102,34 @@ theorem hamming_inverse_corrects (G HT info : List Nat) (k : Nat)
     ∀ j, j < HT.length → hammingInverse HT info (encode G m ^^^ (1 <<< j)) = m :=
   HamProofs.hamming_inverse_corrects G HT info k hsyn hcols hnz hlen hinfo m hm
 
+/-! ## Berlekamp–Massey (model `Kaira/BM.lean` of `BerlekampMasseyDecoder` and `calculate_syndrome_polynomial`)
+
+The decoder's correction is a function of the syndromes alone, the syndromes are additive, and the syndromes of every code
+word of a certified BCH instance (`bchOk`, C03) vanish — so decoding `(code word ⊕ e)` is decoding `e` on the zero code word,
+for every instance, every message, every `e` (`bm_reduction`).  Where the kernel can also evaluate the decoder on every
+pattern of weight ≤ t (`lightOk`, small instances), this is full correctness within capability (`bm_corrects_small`). -/
+
+theorem bm_reduction (c : BchInst) (hc : c ∈ Generated.C03B.instances) (t : Nat) (ht : 2 * t < c.delta) (msg e : Nat) :
+    Kaira.BM.correct c.P c.m t c.n (encode c.G msg ^^^ e) = encode c.G msg ^^^ Kaira.BM.correct c.P c.m t c.n e :=
+  BMProofs.bm_reduction c t (C03.bch_ok c hc) ht msg e
+
+/-- instances small enough for the kernel to run the decoder on every light pattern -/
+def bmSmall (c : BchInst) : Bool := decide (c.n ≤ 15) && decide ((c.delta - 1) / 2 ≤ 1) && decide (1 ≤ c.delta)
+
+set_option maxRecDepth 100000 in
+theorem bm_light_small : ∀ c ∈ Generated.C03B.instances, bmSmall c = true → BMProofs.lightOk c ((c.delta - 1) / 2) = true := by
+  decide +kernel
+
+/-- **Berlekamp–Massey returns the transmitted message for every message and every error pattern of weight ≤ t** on the
+small instances (for the others: `bm_reduction` + the compiled model run on every light pattern by the check) -/
+theorem bm_corrects_small (c : BchInst) (hc : c ∈ Generated.C03B.instances) (hs : bmSmall c = true)
+    (msg e : Nat) (hm : msg < 2 ^ c.k) (he : e < 2 ^ c.n) (hw : weight c.n e ≤ (c.delta - 1) / 2) :
+    invEncode c.R (Kaira.BM.correct c.P c.m ((c.delta - 1) / 2) c.n (encode c.G msg ^^^ e)) = msg :=
+  BMProofs.bm_decodes c ((c.delta - 1) / 2) (C03.bch_ok c hc)
+    (by unfold bmSmall at hs; simp only [Bool.and_eq_true, decide_eq_true_eq] at hs; omega) (bm_light_small c hc hs) msg e hm he hw
+
 /-! ## non-vacuity -/
+example : ∃ c ∈ Generated.C03B.instances, bmSmall c = true ∧ c.n = 15 ∧ c.delta = 3 := by decide +kernel
 example : hammingInverse [0b011, 0b101, 0b110, 0b111, 0b001, 0b010, 0b100] [0, 1, 2, 3]
     (encode [0b0110001, 0b1010010, 0b1100100, 0b1111000] 0b1011 ^^^ (1 <<< 5)) = 0b1011 := by decide +kernel
 example : mlDecode [0b0001111, 0b0110011, 0b1010101] 7 3 0b0001110 = 0b001 := by decide +kernel
